@@ -34,10 +34,10 @@ from xpmc.solvers import construct, call, Inadmissible
 ID = "C19"
 LEVEL = "exploration"
 TECHNIQUE = "bounded exhaustive enumeration of deviation-bounded pairs of inflow states on the real solver (explicit-state exploration, mode L); wave pattern located from the returned fields, textbook jump/expansion relations evaluated on every located state"
-CLAIM = ("Every (bottom, top) state pair within K deviations (K=2 quick, K=4 thorough) of the default pair over a per-side alphabet of pressure, density, Mach "
+CLAIM = ("Every (bottom, top) state pair within K deviations (K=3 quick, K=4 thorough) of the default pair over a per-side alphabet of pressure, density, Mach "
          "number, flow angle and gamma is constructed and called; the plateaus, jumps and fans are located from the returned fields on an arc through every "
          "region (edges refined to 1e-10 rad by further public calls), and the slip-line balance, the oblique-shock relations, the Prandtl-Meyer/isentropic "
-         "relations and the pointwise kinematic consistency are evaluated on 2 x (41 arc points + 8 points in each fan + both sides of every edge). "
+         "relations and the pointwise kinematic consistency are evaluated on 3 radii (1, 0.37, 1e-7) x (41 arc points + 8 points in each fan + both sides of every edge). "
          "Exhaustive over the stated alphabet; right level because the solver is a pure function of ten scalars and a point whose failure modes are wrong "
          "formulas in one branch (wave type x side x sign of the inflow angle), which the lattice reaches.")
 LEVEL_NOTE = ("trusted: numpy/math, the textbook relations transcribed in xpmc/x_C19_gas.py, exact equality of the copied plateau states used to locate edges; "
